@@ -375,6 +375,81 @@ Theorem C01_ignore_order_beyond_text_refuted :
 Proof. exact (conj io_refuted_repetition io_refuted_nested). Qed.
 Print Assumptions C01_ignore_order_beyond_text_refuted.
 
+(* ---- the faithful application: an exception that escapes Delta.__add__ is a result ----
+   Delta/DeltaFaithful.v refines DeltaModel.apply where it was documented as not following the code: [apply_f] refines
+   the insert branch of _do_item_added (`if insert and elem < len(obj): obj.insert(elem, None)`: AttributeError for a
+   tuple / dict / set / str, TypeError for len of a scalar or a non-numeric elem, Python's clamping list.insert for a
+   NEGATIVE index); [apply_ff] also a failed write after a tuple coercion, removals at float / str elems and
+   tuple(...) in post-processing.  [res A = exn + A], inl = the exception escapes.  [insert_regular] (a boolean computed
+   along DeltaModel's run): no insertion raises and none is at a negative index.  The harness compares apply_f / apply_ff
+   with the implementation on tuples of DIFFERENT length and on hand-built payloads (harness/c01free.py). *)
+From DD Require Delta.DeltaFaithful Delta.DeltaFaithfulProofs Delta.DeltaFaithfulRoundtrip.
+Section Faithful.
+Import Delta.DeltaFaithful Delta.DeltaFaithfulProofs Delta.DeltaFaithfulRoundtrip.
+
+(* inside the guards the faithful application has exactly two outcomes: it raises and the run is not insert-regular, or
+   it completes, is insert-regular and arrives at t2 (up to dict / set order) without error; in particular
+   C01_roundtrip_partial holds of the faithful application on every insert-regular run *)
+Theorem C01_roundtrip_faithful_or_raises :
+  forall hatom udiff ops c conv bidir always,
+    (forall a b, hatom a = hatom b -> a = b) ->
+    (forall ty0 v v', conv ty0 v = Some v' -> type_of v' = ty0) ->
+  forall ro ao t1 t2,
+    guards c conv bidir always t1 t2 -> opsv ops t1 t2 [] ->
+    let r := run_diff hatom udiff ops nos nos c t1 t2 in
+    let d := to_delta conv bidir always ops t1 t2 (fst r) (snd r) in
+    orders_ok_at ro ao d ->
+    (insert_regular conv ro ao d t1 = true -> exists t2', apply_f conv ro ao d t1 = inr (t2', 0) /\ veqb t2' t2 = true) /\
+    (nonneg_paths d = true ->
+     ((exists e, apply_f conv ro ao d t1 = inl e) /\ insert_regular conv ro ao d t1 = false) \/
+     (exists t2', apply_f conv ro ao d t1 = inr (t2', 0) /\ veqb t2' t2 = true /\ insert_regular conv ro ao d t1 = true)).
+Proof.
+  intros hatom udiff ops c conv bidir always Hinj Hconv ro ao t1 t2 G OV r d HO. split.
+  - exact (roundtrip_f_at hatom udiff ops c conv bidir always Hinj Hconv ro ao t1 t2 G OV HO).
+  - exact (roundtrip_f_or_raises hatom udiff ops c conv bidir always Hinj Hconv ro ao t1 t2 G OV HO).
+Qed.
+Print Assumptions C01_roundtrip_faithful_or_raises.
+
+(* agreement with DeltaModel.apply: on every insert-regular run; exactly those when the added paths end in list positions;
+   statically when nothing is added to an iterable; the fully faithful application under the four regularities; the
+   closest-element search for an int elem of either sign is DeltaModel's *)
+Theorem C01_faithful_agrees :
+  (forall conv ro ao d v, insert_regular conv ro ao d v = true -> apply_f conv ro ao d v = inr (apply conv ro ao d v)) /\
+  (forall conv ro ao d v, nonneg_paths d = true -> (forall x, In x (ao (added_items d)) -> In x (added_items d)) ->
+    ((exists e, apply_f conv ro ao d v = inl e) <-> insert_regular conv ro ao d v = false)) /\
+  (forall conv ro ao d v, d_iadd d = [] -> d_moved d = [] -> apply_f conv ro ao d v = inr (apply conv ro ao d v)) /\
+  (forall conv ro ao d v,
+    insert_regular conv ro ao d v = true -> write_regular conv ro ao d v = true ->
+    removal_regular conv ro ao d v = true -> post_regular conv ro ao d v = true ->
+    apply_ff conv ro ao d v = inr (apply conv ro ao d v)) /\
+  (forall xs z expected, find_closest2 xs (2 * z) expected = find_closest xs (Z.to_nat z) expected).
+Proof. exact (conj apply_f_sound (conj apply_f_raises_iff (conj apply_f_no_iterable_added (conj apply_ff_sound find_closest2_int)))). Qed.
+Print Assumptions C01_faithful_agrees.
+
+(* witnesses (each as on the implementation).  "F6" on the faithful model: (1,2) + Delta(DeepDiff((1,2),(1,7,2))) raises
+   AttributeError where DeltaModel answers (1,7) (C01_roundtrip_refuted_tuple_length); a trailing append to a tuple
+   (1,2) -> (1,2,3) succeeds; [1,2,3] + Delta({'iterable_item_added': {'root[-1]': 9}}) = [1, 2, None, 9] where
+   DeltaModel answers [1, 2, 9]; no condition on paths and the absence of tuples makes a run regular (dict.insert, len(5)) *)
+Theorem C01_faithful_witnesses :
+  (rt_f hatom_ex f6_ops ex_cfg conv_none false false f6_t1 f6_t2 = inl EAttribute /\
+   rt_ff hatom_ex f6_ops ex_cfg conv_none false false f6_t1 f6_t2 = inl EAttribute /\
+   rt hatom_ex f6_ops ex_cfg conv_none false false f6_t1 f6_t2 = (VTuple [I 1; I 7], 0) /\
+   insert_regular conv_none (@rev _) (fun l => l) (delta_of hatom_ex (fun _ _ => []) f6_ops ex_cfg conv_none false false f6_t1 f6_t2) f6_t1 = false) /\
+  (rt_f hatom_ex app_ops ex_cfg conv_none false false f6_t1 app_t2 = inr (app_t2, 0) /\
+   rt_ff hatom_ex app_ops ex_cfg conv_none false false f6_t1 app_t2 = inr (app_t2, 0) /\
+   rt hatom_ex app_ops ex_cfg conv_none false false f6_t1 app_t2 = (app_t2, 0) /\
+   insert_regular conv_none (@rev _) (fun l => l) (delta_of hatom_ex (fun _ _ => []) app_ops ex_cfg conv_none false false f6_t1 app_t2) f6_t1 = true /\
+   d_iadd (delta_of hatom_ex (fun _ _ => []) app_ops ex_cfg conv_none false false f6_t1 app_t2) = [([PKey (AInt 2)], I 3)]) /\
+  (let d := free_delta [([PKey (AInt (-1))], I 9)] [] [] [] [] [] in
+   let v := VList [I 1; I 2; I 3] in
+   app_f d v = inr (VList [I 1; I 2; NoneV; I 9], 0) /\ app_ff d v = inr (VList [I 1; I 2; NoneV; I 9], 0) /\
+   app_m d v = (VList [I 1; I 2; I 9], 0) /\ insert_regular conv_none (@rev _) (fun l => l) d v = false) /\
+  (nonneg_paths nsp_d1 = true /\ app_f nsp_d1 nsp_v1 = inl EAttribute /\ app_m nsp_d1 nsp_v1 = (nsp_r1, 0) /\
+   nonneg_paths nsp_d2 = true /\ app_f nsp_d2 nsp_v2 = inl EType /\ app_m nsp_d2 nsp_v2 = (nsp_v2, 1)).
+Proof. exact (conj tuple_insert_raises (conj tuple_append_ok (conj negative_index_insert no_static_path_condition))). Qed.
+Print Assumptions C01_faithful_witnesses.
+End Faithful.
+
 (* ---- numpy arrays "edited in place" ----
    Models: Diff/NpModel.v (the diff of numeric arrays: dtype, shape, row-major data), Delta/DeltaNp.v (the
    values_changed payload with _numpy_paths, _do_values_changed writing through the index path; casts, out-of-range
